@@ -20,28 +20,29 @@ RULE = ('one "element" case per (table variant, Z): the element, each of its iso
         'to the key; one "invalid" case per (variant, Z) sends every invalid neighbour of the valid keys of that '
         'element through the same routes and requires an exception; one "move" case per (source, destination, Z) checks '
         'core.change_table and Formula.change_table; one "table" case per variant checks iteration order, odd keys, '
-        'non-element attribute names and define_elements. EXHAUSTIVE in BOTH tiers over the 119 elements, 2940 '
-        'isotopes, 499 element ions of the public table and of one mass-initialised private table, all routes, all '
-        'pickle protocols, and over all invalid neighbours of element/isotope/element-ion keys. STRIDED in quick only: '
-        'the 14207 isotope ions (identity sweep, invalid charges on isotopes, change_table) are taken for every '
-        'ISO_STRIDE_QUICK-th isotope of each element (offset rotates with Z and seed; first and last isotope always '
-        'included; D and T always included); thorough takes all of them and adds the public table after every lazy '
-        'loader ran, a second private table created late in the process history (mass+density+nsf initialised) and a '
-        'bare private table (no mass.init: only D/T plus isotopes added on demand). distinct = distinct '
-        '(variant, Z, A, q) atoms swept + distinct (variant, kind, key) invalid keys + distinct (src, dst, Z, A, q) '
+        'non-element attribute names and define_elements. EXHAUSTIVE in BOTH tiers, nothing is strided (ISO_STRIDE_QUICK = 1, '
+        'the stride is recorded in every case): all 119 elements, 2940 isotopes, 499 element ions and 14207 isotope ions of the '
+        'public table and of one mass-initialised private table, all routes, all pickle protocols 0..5, all invalid '
+        'neighbours (symbol/name case flips, truncations and extensions; A+-1 and other isotope numbers not in the element; '
+        'q+-1, 0, +-10, 100 not in the ions, on the element and on every isotope; 9 malformed and 10 other-notation A-Sym spellings of every '
+        "isotope; 'A-D'/'A-T'; odd keys), and change_table public->private, private->public, private->private for every "
+        'atom. The thorough tier adds table variants, i.e. process histories: the public table after every lazy loader '
+        'ran, a second private table created late (mass+density+nsf initialised) and a bare private table (no mass.init: '
+        'only D/T plus isotopes added on demand in decreasing order), and six more change_table pairs. distinct = distinct '
+        '(variant, Z, A, q) atoms swept + distinct (variant, route, key) invalid keys that raised + distinct (src, dst, Z, A, q) '
         'moves; all are non-trivial (each is an identity or must-raise judgement on a different key)')
 EXHAUSTIVE = True
 TECHNIQUE = ('runtime monitoring: exhaustive sweep of the finite atom universe through every lookup route with object-identity '
              'oracle and an independent key model, must-raise sweep of invalid neighbour keys, icontract postconditions on '
              'IonSet.__getitem__/PeriodicTable.symbol/name/isotope/_make_* (evaluated on internal calls from pickle, copy and '
              'change_table too), sys.monitoring reach counters on __reduce__/__iter__/change_table')
-LEVEL_TEXT = ('Every element, isotope and element ion of the public table and of private tables, and every isotope ion '
-              '(all in the thorough tier, a fixed stride of isotopes in the quick tier), is looked up through every '
+LEVEL_TEXT = ('Every element, isotope, element ion and isotope ion of the public table and of private tables '
+              'is looked up through every '
               'public route, pickled with every protocol, copied and deep-copied, moved between tables, and each result '
               'is compared by identity with the object reached by plain indexing and by field with a key model read '
               'independently from the source; every invalid neighbour of those keys must raise. The domain is finite and '
-              'swept completely in the thorough tier; the sampling that remains is over process histories (five table '
-              'variants).')
+              'swept completely in both tiers; the sampling that remains is over process histories (two table variants '
+              'in the quick tier, five in the thorough tier) and over the finite list of invalid-neighbour operators.')
 LEVEL_NOTE = ('Trusted: the element_base literal in core.py and the isotope rows of the mass table as the specification of which '
               'atoms exist (re-read by ast / pvmon/ref/masses.py), CPython pickle and copy, icontract.')
 SHARDS = {'quick': 4, 'thorough': 8}
@@ -52,7 +53,7 @@ ASSUMPTIONS = ['the element_base literal in core.py and the rows of mass.isotope
                'numerically equal keys (26.0, True) are outside the property and not exercised',
                'the alias symbols/names D, T, deuterium, tritium are the documented names of H[2] and H[3]']
 
-ISO_STRIDE_QUICK = 4
+ISO_STRIDE_QUICK = 1
 ALIASES = {2: ('D', 'deuterium'), 3: ('T', 'tritium')}
 STATED = {'elements': 119, 'isotopes': 2940, 'element_ions': 499, 'isotope_ions': 14207}
 CONTRACTS = ('IonSet.__getitem__', 'PeriodicTable.symbol', 'PeriodicTable.name', 'PeriodicTable.isotope',
@@ -278,13 +279,13 @@ def setup(ctx):
         ctx.require('swept.private.element', 119, 'every element of a private table')
         ctx.require('swept.private.isotope', 2940, 'every isotope of a private table')
         ctx.require('swept.private.element_ion', 499, 'every element ion of a private table')
+        n_ii = 14207 if (ctx.thorough() or ISO_STRIDE_QUICK == 1) else 14207 // (2 * ISO_STRIDE_QUICK)
+        ctx.require('swept.public.isotope_ion', n_ii, 'isotope ions of the public table')
+        ctx.require('swept.private.isotope_ion', n_ii, 'isotope ions of a private table')
         if ctx.thorough():
-            ctx.require('swept.public.isotope_ion', 14207, 'every isotope ion of the public table (thorough)')
-            ctx.require('swept.private.isotope_ion', 14207, 'every isotope ion of a private table (thorough)')
             ctx.require('swept.private_late.isotope_ion', 14207, 'every isotope ion of the second private table (thorough)')
-        else:
-            ctx.require('swept.public.isotope_ion', 14207 // (2 * ISO_STRIDE_QUICK), 'strided isotope ions, public')
-            ctx.require('swept.private.isotope_ion', 14207 // (2 * ISO_STRIDE_QUICK), 'strided isotope ions, private')
+            ctx.require('swept.public_loaded.isotope_ion', 14207, 'every isotope ion of the public table after all loaders ran')
+            ctx.require('swept.bare.element_ion', 499, 'every element ion of the bare private table')
         ctx.require('invalid.raised', 1000, 'invalid neighbour keys must have been tried')
 
 
@@ -294,7 +295,7 @@ def finish(ctx):
     for name in CONTRACTS:
         ctx.count('contract.' + name, _s['evals'].get(name, 0))
     ctx.info['iso_stride_quick'] = ISO_STRIDE_QUICK
-    ctx.info['pickle_protocols'] = list(range(0, pickle.HIGHEST_PROTOCOL + 1))
+    ctx.info['pickle_protocols'] = '0..%d' % pickle.HIGHEST_PROTOCOL
 
 
 # ------------------------------------------------------------------ table variants
@@ -389,6 +390,21 @@ class _Ev(object):
         self.ctx = ctx
         self.variant = variant
 
+    def fetch(self, route, key, fn):
+        """First lookup of a valid key: must not raise (None when it does)."""
+        ctx = self.ctx
+        ctx.evaluated(what='valid.' + route)
+        try:
+            return fn()
+        except ContractBroken:
+            ctx.count('contract.raised')
+            return None
+        except Exception as exc:
+            ctx.violation('%s: route %s for the valid key %r raised %s: %s'
+                          % (self.variant, route, key, type(exc).__name__, exc),
+                          route=route, key=list(key), kind='route-raised', exc_type=type(exc).__name__)
+            return None
+
     def same(self, route, key, fn, want):
         ctx = self.ctx
         ctx.evaluated(what='identity.' + route)
@@ -435,6 +451,29 @@ class _Ev(object):
         ctx.violation('%s: invalid key %r through %s returned %r instead of raising' % (self.variant, key, route, got),
                       route=route, key=key if isinstance(key, (str, int, float, type(None))) else list(key),
                       kind='invalid-accepted')
+
+    def soft_invalid(self, route, key, fn, denoted):
+        """A spelling outside the design's invalid list (white-space padding, other number
+        notations, formula-style tags): raising is the expected outcome; returning exactly the
+        atom the spelling would denote under a lenient reading is an observation; returning
+        anything else is a violation."""
+        ctx = self.ctx
+        ctx.evaluated(what='invalid.' + route)
+        try:
+            got = fn()
+        except ContractBroken:
+            ctx.count('contract.raised')
+            return
+        except Exception:
+            ctx.count('invalid.raised')
+            ctx.count('invalid.raised.' + route)
+            ctx.distinct_case(('invalid', self.variant, route, key))
+            return
+        if got is denoted:
+            ctx.count('lenient.accepted.' + route)
+            return
+        ctx.violation('%s: malformed key %r through %s returned %r, which is not even the atom %r a lenient reading denotes'
+                      % (self.variant, key, route, got, denoted), route=route, key=key, kind='invalid-accepted')
 
     def lenient(self, kind, text, fn, want):
         """Lenient spelling: observation only, but a returned object must be the atom the
@@ -598,7 +637,7 @@ def check_element(ctx, case):
     # --- element ions
     for q in ions:
         key = (Z, 0, q)
-        x = ev.same('.ion[q]', key, lambda: e.ion[q], e.ion.ionset.get(q, None) or _first(lambda: e.ion[q]))
+        x = ev.fetch('.ion[q]', key, lambda: e.ion[q])
         if x is None:
             continue
         ev.same('.ion[q].again', key, lambda: e.ion[q], x)
@@ -653,7 +692,7 @@ def check_element(ctx, case):
             continue
         for q in ions:
             key = (Z, A, q)
-            y = ev.same('isotope.ion[q]', key, lambda: i.ion[q], i.ion.ionset.get(q, None) or _first(lambda: i.ion[q]))
+            y = ev.fetch('isotope.ion[q]', key, lambda: i.ion[q])
             if y is None:
                 continue
             ev.same('isotope.ion[q].again', key, lambda: i.ion[q], y)
@@ -691,15 +730,6 @@ def check_element(ctx, case):
                       route='ionset-state', key=[Z, 0, 0], kind='cache-state')
 
 
-def _first(fn):
-    try:
-        return fn()
-    except ContractBroken:
-        return None
-    except Exception:
-        return None
-
-
 def _bulk_same(ctx, variant, Z, route, bulk, back, n):
     flat_a = bulk[:-2] + list(bulk[-2]) + [bulk[-1]['k']]
     try:
@@ -717,12 +747,18 @@ def _bulk_same(ctx, variant, Z, route, bulk, back, n):
 
 # ------------------------------------------------------------------ invalid neighbours
 def _symbol_variants(sym):
-    return {sym.lower(), sym.upper(), sym.swapcase(), sym + 'x', sym[0], sym[:-1], ' ' + sym, sym + ' ', sym + '1',
-            sym + sym, sym[::-1], sym + '\n', sym.lower() + sym.lower()}
+    """Case flips, truncations and extensions: each denotes a symbol the table does not define."""
+    return {sym.lower(), sym.upper(), sym.swapcase(), sym + 'x', sym[0], sym[:-1], sym + '1',
+            sym + sym, sym[::-1], sym.lower() + sym.lower()}
+
+
+def _padded(text):
+    """White-space padding only (not in the design's invalid list: soft)."""
+    return [' ' + text, text + ' ', text + '\n', '\t' + text]
 
 
 def _name_variants(name):
-    return {name.upper(), name.capitalize(), name.swapcase(), name + 's', name[:-1], name[1:], ' ' + name, name + ' ',
+    return {name.upper(), name.capitalize(), name.swapcase(), name + 's', name[:-1], name[1:],
             name[:3], name[:1], name + name, name.title() + ' '}
 
 
@@ -755,6 +791,17 @@ def check_invalid(ctx, case):
                 ev.must_raise('T.name(sym)', v, lambda: T.name(v))
                 if public:
                     ev.must_raise('module.attr', v, lambda: getattr(pt, v), _not_atom)
+    # white-space padding of symbols and names (soft: see _Ev.soft_invalid)
+    targets = [(sym, name, e)]
+    if Z == 1:
+        targets += [(a[0], a[1], e[A]) for A, a in ALIASES.items() if A in isos]
+    for s_, n_, obj in targets:
+        for v in _padded(s_):
+            ev.soft_invalid('T.symbol(padded)', v, lambda: T.symbol(v), obj)
+            ev.soft_invalid('T.isotope(padded)', v, lambda: T.isotope(v), obj)
+            ev.must_raise('getattr(T,padded)', v, lambda: getattr(T, v), _not_atom)
+        for v in _padded(n_):
+            ev.soft_invalid('T.name(padded)', v, lambda: T.name(v), obj)
     # a symbol is not a name, a name is not a symbol
     ev.must_raise('T.name(symbol)', sym, lambda: T.name(sym))
     ev.must_raise('T.symbol(name)', name, lambda: T.symbol(name))
@@ -790,12 +837,16 @@ def check_invalid(ctx, case):
             ev.must_raise('alias[A]', asym, lambda: getattr(T, asym)[2])
     # --- malformed 'A-Sym' strings around every valid isotope
     for A in isos:
-        for bad in ('%d-%s-1' % (A, sym), '%s-%d' % (sym, A), '%d-' % A, '-%s' % sym, '%d-%s ' % (A, sym),
-                    '%d- %s' % (A, sym), '%d.0-%s' % (A, sym), '%d_-%s' % (A, sym), '%d-%s-' % (A, sym),
-                    '-%d-%s' % (A, sym), '%d--%s' % (A, sym), '%s[%d]' % (sym, A), '%d %s' % (A, sym),
-                    '%d%s' % (A, sym), '%de0-%s' % (A, sym), '%d-%s%s' % (A, sym, sym), '0x%x-%s' % (A, sym),
-                    '%d-%s-%d' % (A, sym, A)):
+        i = e[A]
+        # the design's list: 'A-Sym-x', 'Sym-A', 'A-', '-Sym', negative A, unknown (doubled) symbol
+        for bad in ('%d-%s-1' % (A, sym), '%s-%d' % (sym, A), '%d-' % A, '-%s' % sym, '%d-%s-' % (A, sym),
+                    '-%d-%s' % (A, sym), '%d-%s%s' % (A, sym, sym), '%d-%s-%d' % (A, sym, A), '%d-%s-x' % (A, sym)):
             ev.must_raise("T.isotope(malformed)", bad, lambda: T.isotope(bad))
+        # other notations of the same numbers and letters (soft)
+        for bad in ('%d-%s ' % (A, sym), '%d- %s' % (A, sym), '%d.0-%s' % (A, sym), '%d_-%s' % (A, sym),
+                    '%d--%s' % (A, sym), '%s[%d]' % (sym, A), '%d %s' % (A, sym), '%d%s' % (A, sym),
+                    '%de0-%s' % (A, sym), '0x%x-%s' % (A, sym)):
+            ev.soft_invalid("T.isotope(other notation)", bad, lambda: T.isotope(bad), i)
         for v in sorted({sym.lower(), sym.upper(), sym.swapcase()}):
             vz = M.Z_of_sym.get(v)
             if v == sym or v in ('D', 'T') or (vz is not None and A in _isotopes(variant, vz)):
